@@ -173,6 +173,10 @@ func (ssc *defaultStatefulSetControl) AdoptOrphanRevisions(
 	set *apps.StatefulSet,
 	revisions []*kubeapps.ControllerRevision) error {
 	for i := range revisions {
+		// only orphans are adopted; revisions that already have a controller are left as they are
+		if metav1.GetControllerOfNoCopy(revisions[i]) != nil {
+			continue
+		}
 		adopted, err := ssc.adoptControllerRevision(set, controllerKind, revisions[i])
 		if err != nil {
 			return err
